@@ -371,11 +371,84 @@ fn case(tape: &[u8], rec: &Rec) -> Verdict {
     Ok(())
 }
 
-pub fn replay(_ctx: &Ctx, check: &str, tape: &[u8]) -> Verdict {
+
+/// Definitions whose locals are read wherever they are declared, assigned on that path or not: the
+/// conversion may refuse them (`used before it is defined`); whatever it does convert must be valid SSA.
+fn unassigned_reads_case(tape: &[u8], rec: &Rec) -> Verdict {
+    let mut t = Tape::new(tape);
+    let mut p = cf_profile(&mut t);
+    p.uninit_decl = true;
+    p.reads_any_declared = true;
+    let mut ids = crate::gen::ast::Ids::default();
+    let def = crate::gen::prog::gen_def(&mut t, &p, &mut ids, "F");
+    let printed = crate::gen::print::print_def(&def, false);
+    let r = crate::gen::print::render(&printed, &crate::gen::print::plain_trivia(&printed));
+    let c = CfCase { template: p.template, def, r };
+    let cfg = match lift(&c) {
+        Lift::Ok(cfg, _) => cfg,
+        Lift::Rejected(_) => return Ok(()),
+        Lift::Panic(p) => return Err(Bad::new(format!("lifting panicked: {p}")).sig("C14:panic").rendered(c.r.src.clone())),
+    };
+    match obs::to_ssa(cfg) {
+        Ok(ssa) => {
+            rec.class("definitions_with_possibly_unassigned_reads_converted");
+            rec.nontrivial(fnv(c.r.src.as_bytes()));
+            static_audit(&ssa, &c.r.src)
+        }
+        Err(obs::SsaFail::Error(_)) => {
+            rec.class("definitions_with_possibly_unassigned_reads_refused");
+            Ok(())
+        }
+        Err(obs::SsaFail::Panic(p)) => Err(Bad::new(format!("into_ssa panicked: {p}")).sig("C14:ssa-panic").rendered(c.r.src.clone())),
+    }
+}
+
+/// Templates written with tuples and anonymous components (the pairs of C18, also inside loop bodies),
+/// parsed and desugared by `parse_files`: the SSA form of everything that converts is audited.
+fn sugar_case(ctx: &Ctx, tape: &[u8], rec: &Rec) -> Verdict {
+    let mut t = Tape::new(tape);
+    let (src, lib) = super::c18::sugared_program(&mut t);
+    let dir = ctx.scratch.join(format!("c14-{:?}", std::thread::current().id()).replace(['(', ')'], ""));
+    let _ = std::fs::remove_dir_all(&dir);
+    let _ = std::fs::create_dir_all(&dir);
+    let path = dir.join("s.circom");
+    let _ = std::fs::write(&path, &src);
+    if let Some(lib) = lib {
+        let _ = std::fs::write(dir.join("zzlib.circom"), lib);
+    }
+    let parsed = catch(|| parser::parse_files(&[path.clone()], &[], &program_analysis::config::COMPILER_VERSION));
+    let _ = std::fs::remove_dir_all(&dir);
+    let Ok(parsed) = parsed else { return Ok(()) };
+    let templates = match parsed {
+        parser::ParseResult::Program(p, _) => p.templates,
+        parser::ParseResult::Library(l, _) => l.templates,
+    };
+    let curve = program_structure::constants::Curve::Bn254;
+    let mut names: Vec<&String> = templates.keys().collect();
+    names.sort();
+    for name in names {
+        let tpl = &templates[name];
+        use program_structure::cfg::IntoCfg;
+        let mut rs = Vec::new();
+        let ssa = catch(|| tpl.into_cfg(&curve, &mut rs).ok().and_then(|cfg| cfg.into_ssa().ok()));
+        if let Ok(Some(ssa)) = ssa {
+            rec.class("desugared_templates_audited");
+            if name == "Top" {
+                rec.nontrivial(fnv(src.as_bytes()));
+            }
+            static_audit(&ssa, &src)?;
+        }
+    }
+    Ok(())
+}
+
+pub fn replay(ctx: &Ctx, check: &str, tape: &[u8]) -> Verdict {
     let stats = Stats::new();
     let rec = Rec::new(&stats, false);
     match check {
         "ssa_validity" => case(tape, &rec),
+        "unassigned_reads" => unassigned_reads_case(tape, &rec),
+        "desugared_templates" => sugar_case(ctx, tape, &rec),
         _ => Err(Bad::new(format!("unknown check {check}"))),
     }
 }
@@ -387,6 +460,10 @@ pub fn run(ctx: &Ctx) -> i32 {
     let known = load_known("C14");
     let fails = run_tapes(ctx, "ssa_validity", ctx.tier.pick(30_000, 400_000), 4000, &stats, case);
     outcome.absorb(&known, fails);
+    let fails = run_tapes(ctx, "unassigned_reads", ctx.tier.pick(10_000, 150_000), 4000, &stats, unassigned_reads_case);
+    outcome.absorb(&known, fails);
+    let fails = run_tapes(ctx, "desugared_templates", ctx.tier.pick(2_000, 40_000), 4000, &stats, |tape, rec| sugar_case(ctx, tape, rec));
+    outcome.absorb(&known, fails);
     let programs = stats.class_count("programs");
     finish(
         ctx,
@@ -394,7 +471,7 @@ pub fn run(ctx: &Ctx) -> i32 {
         &outcome,
         EvidenceSpec {
             level: "translation_validation",
-            rule: "definitions from the control-flow profile (shadowed names, arrays updated element-wise, variables assigned in one branch, declarations without initialiser that are read only when definitely assigned, nested loops, reassigned parameters) are converted with into_ssa. Static audit: at most one defining statement per versioned local, phi statements only at block heads, every non-phi read dominated by its definition and every phi argument defined in a block dominating a predecessor (reference dominators), locals versioned and covered by the CFG's declarations and a declaration statement, signals/components unversioned. Dynamic: for 16 decision sequences the SSA graph is walked in lock step with the structured walk of the generator AST (same statements, C13 relation) while tracking the version most recently assigned to every variable on that path: every phi traversed must list the incoming current version and every read must name the current version. Definitions whose conversion returns an error are counted and skipped. Non-trivial = a path that traverses at least one phi statement and checks at least one read; distinct by (source, decision vector).",
+            rule: "definitions from the control-flow profile (shadowed names, arrays updated element-wise, variables assigned in one branch, declarations without initialiser that are read only when definitely assigned, nested loops, reassigned parameters) are converted with into_ssa. Static audit: at most one defining statement per versioned local, phi statements only at block heads, every non-phi read dominated by its definition and every phi argument defined in a block dominating a predecessor (reference dominators), locals versioned and covered by the CFG's declarations and a declaration statement, signals/components unversioned. Dynamic: for 16 decision sequences the SSA graph is walked in lock step with the structured walk of the generator AST (same statements, C13 relation) while tracking the version most recently assigned to every variable on that path: every phi traversed must list the incoming current version and every read must name the current version. Definitions whose conversion returns an error are counted and skipped. Two further sub-checks run the static audit alone: `unassigned_reads` on definitions whose locals are read wherever they are declared, assigned on that path or not (the conversion may refuse them; what it converts must be valid), and `desugared_templates` on the templates of C18's sugared programs (tuples, anonymous components, also inside loop bodies) after `parse_files` has desugared them. Non-trivial = a path that traverses at least one phi statement and checks at least one read; distinct by (source, decision vector).",
             assumptions: vec![
                 "reads of locals are generated only where the variable is definitely assigned (the known class `declared but unassigned local merged at a join` is excluded by construction; see DESIGN.md)".into(),
                 "the implicit previous version read by the first element-wise update of an array needs no definition".into(),
